@@ -94,10 +94,36 @@ func (pp *ppipe) onWriteEvent(we *journal2.WriteEvent) {
 		pd.Pos = we.StartPos
 		pd.Tags = we.Tags.Line().String()
 		pp.partitions[we.Src] = pd
+		if !pp.deleted {
+			// the start position of a new source is persisted right away: a stop before the first copy must not forget it
+			pp.svc.psr.savePipeInfo(pp.cfg.Name, pp.partitions)
+		}
 	}
 	pd.LastKnwnPos = we.EndPos
 	pp.startWorker(we.Src, we.Tags.Line(), pd)
 	pp.lock.Unlock()
+}
+
+// catchUp is called once, when the pipe was loaded at start: for every source the pipe has a position for, LastKnwnPos
+// becomes the end of the source's stored data (the saved value can be older than the last notification), and a worker
+// is started if the saved position is behind it
+func (pp *ppipe) catchUp(ctx context.Context) {
+	pp.lock.Lock()
+	defer pp.lock.Unlock()
+	for src, pd := range pp.partitions {
+		ts, j, err := pp.svc.Journals.GetJournal(ctx, src)
+		if err != nil {
+			continue
+		}
+		if cks, err := j.Chunks().Chunks(ctx); err == nil && len(cks) > 0 {
+			last := cks[len(cks)-1]
+			if end := (journal.Pos{CId: last.Id(), Idx: last.Count()}); pd.LastKnwnPos.Less(end) {
+				pd.LastKnwnPos = end
+			}
+			pp.startWorker(src, ts.Line(), pd)
+		}
+		pp.svc.Journals.Release(src)
+	}
 }
 
 func (pp *ppipe) startWorker(src string, srcTags tag.Line, pd *ppDesc) {
